@@ -15,9 +15,9 @@ def OctetsOk (b : List Nat) : Prop := ∀ x ∈ b, x < 256
 /-- what the text layer needs of a file beyond `SlurmFile.WF`: prefixes as the constructors make them,
 octet strings made of octets -/
 def PrefixFilter.TextWF (f : PrefixFilter) : Prop := ∀ p, f.pfx = some p → PfxText.PfxWF p
-def BgpsecFilter.TextWF (f : BgpsecFilter) : Prop := ∀ s, f.ski = some s → OctetsOk s
+def BgpsecFilter.TextWF (f : BgpsecFilter) : Prop := ∀ s, f.ski = some s → OctetsOk s ∧ s.length = 20
 def PrefixAssertion.TextWF (a : PrefixAssertion) : Prop := PfxText.PfxWF a.mlp.pfx
-def BgpsecAssertion.TextWF (a : BgpsecAssertion) : Prop := OctetsOk a.ski ∧ OctetsOk a.key
+def BgpsecAssertion.TextWF (a : BgpsecAssertion) : Prop := (OctetsOk a.ski ∧ a.ski.length = 20) ∧ OctetsOk a.key
 def FileTextWF (f : SlurmFile) : Prop :=
   (∀ x ∈ f.filters.pfs, PrefixFilter.TextWF x) ∧ (∀ x ∈ f.filters.bgpsec, BgpsecFilter.TextWF x) ∧
   (∀ x ∈ f.assertions.pas, PrefixAssertion.TextWF x) ∧ (∀ x ∈ f.assertions.bgpsec, BgpsecAssertion.TextWF x)
@@ -26,8 +26,34 @@ theorem retype_pfx (p : Pfx) (h : PfxText.PfxWF p) :
     retype (some .prefixK) (.str (PfxText.fmtPfx p)) = .pfx p := by
   simp [retype, PfxText.parsePfx_fmt false p h]
 
-theorem unB64 (b : List Nat) (h : OctetsOk b) : ProvMsg.unB64Url (ProvMsg.b64Url b) = some b :=
-  ProvMsg.unB64Url_b64Url b h
+theorem b64Url_urlsafe (b : List Nat) : (ProvMsg.b64Url b).any (fun c => c = 43 || c = 47) = false := by
+  rw [List.any_eq_false]
+  intro c hc
+  unfold ProvMsg.b64Url at hc
+  rw [List.mem_map] at hc
+  obtain ⟨c', _, rfl⟩ := hc
+  by_cases h1 : c' = 43
+  · subst h1; decide
+  · by_cases h2 : c' = 47
+    · subst h2; decide
+    · simp [h1, h2]
+
+theorem unB64 (b : List Nat) (h : OctetsOk b) : slurmB64 (ProvMsg.b64Url b) = some b := by
+  unfold slurmB64
+  rw [b64Url_urlsafe b]
+  simp only [Bool.false_eq_true, if_false]
+  exact ProvMsg.unB64Url_b64Url b h
+
+/-- twenty octets are written as 27 characters -/
+theorem b64Url_len20 (b : List Nat) (h : b.length = 20) : (ProvMsg.b64Url b).length = 27 := by
+  match b, h with
+  | [a1, a2, a3, a4, a5, a6, a7, a8, a9, a10, a11, a12, a13, a14, a15, a16, a17, a18, a19, a20], _ =>
+    have ne : ∀ v, (Xml.b64Char v = 61) = False := fun v => eq_false (Xml.b64Char_range v).2.2
+    simp [ProvMsg.b64Url, Xml.b64Encode, List.filter, ne]
+
+theorem retype_ski (s : List Nat) (h : OctetsOk s ∧ s.length = 20) :
+    retype (some .ski) (.str (ProvMsg.b64Url s)) = .bytes s := by
+  simp [retype, b64Url_len20 s h.2, unB64 s h.1]
 
 theorem retypeArr_map {α : Type} (g : α → Json) (k : Option Key) : ∀ (l : List α),
     (∀ x ∈ l, retype k (erase (g x)) = g x) → retypeArr k (eraseArr (l.map g)) = l.map g := by
@@ -56,8 +82,9 @@ theorem BgpsecFilter.retype_erase (f : BgpsecFilter) (h : BgpsecFilter.TextWF f)
   | none =>
     cases a <;> cases c <;> simp [BgpsecFilter.toJson, optField, erase, eraseObj, retype, retypeObj]
   | some s =>
-    have hs := unB64 s (h s rfl)
-    cases a <;> cases c <;> simp [BgpsecFilter.toJson, optField, erase, eraseObj, retype, retypeObj, hs]
+    have hl := b64Url_len20 s (h s rfl).2
+    have hs := unB64 s (h s rfl).1
+    cases a <;> cases c <;> simp [BgpsecFilter.toJson, optField, erase, eraseObj, retype, retypeObj, hs, hl]
 
 theorem AspaFilter.retype_erase (f : AspaFilter) (k : Option Key) :
     retype k (erase f.toJson) = f.toJson := by
@@ -74,9 +101,10 @@ theorem PrefixAssertion.retype_erase (a : PrefixAssertion) (h : PrefixAssertion.
 theorem BgpsecAssertion.retype_erase (a : BgpsecAssertion) (h : BgpsecAssertion.TextWF a) (k : Option Key) :
     retype k (erase a.toJson) = a.toJson := by
   obtain ⟨asn, s, key, c⟩ := a
-  have h1 := unB64 s h.1
+  have hl := b64Url_len20 s h.1.2
+  have h1 := unB64 s h.1.1
   have h2 := unB64 key h.2
-  cases c <;> simp [BgpsecAssertion.toJson, optField, erase, eraseObj, retype, retypeObj, h1, h2]
+  cases c <;> simp [BgpsecAssertion.toJson, optField, erase, eraseObj, retype, retypeObj, h1, h2, hl]
 
 theorem AspaAssertion.retype_erase (a : AspaAssertion) (k : Option Key) :
     retype k (erase a.toJson) = a.toJson := by
